@@ -7,6 +7,14 @@ from .bpgen import insertion_history, target_blueprint
 
 ID = "C01"
 ALLOWED_AXIOMS = []
+PROPS_FILES = ["C01", "C01n"]
+T_GEN = ["OutputGuardsGen.v"]          # carries forge_min_points, read from blueprint._subelementBuilder
+T_FILES = ["Generated/OutputGuardsGen", "Numeric/ForgeConstants", "Props/C01n"]
+
+
+def search_failing_input(ctx):
+    return []          # the generated cases below are the search: correspondence failures are reported with the program
+
 RULE = ("blueprints of 1-8 segments (thorough: up to 14) over ramp/sine/gaussian/gaussian_smooth_cutoff, three user "
         "functions of arity 1/2/4 (call log compared) and waituntil; SR from {1, 1.7, 12.5, 25, 100, 1e3, 1e4, 2.4e9, "
         "50e9}; durations (n+f)/SR with |f| <= 0.4, int- and float-typed; every blueprint is built twice by two "
